@@ -41,6 +41,10 @@ type glCtx struct {
 	q       *glQueue
 	pre     []string // hoisted helper calls (.sub statements) waiting to be emitted before the current statement
 	tmp     *int
+	types   map[string]string // Go type of locals / parameters ("*EntryDetail", "[]*Addenda05", "int", ...)
+	inSwitch int              // depth of enclosing switch statements inside the innermost loop (a `break` there leaves the switch)
+	named   []string          // named results of the function being translated
+	selfTerm string           // when inlining an accessor of another object: the Lean term of that object
 }
 
 type glQueue struct {
@@ -50,8 +54,12 @@ type glQueue struct {
 }
 
 func (p *pkg) structFieldType(rtype, field string) (string, bool) {
+	return p.structFieldTypeD(rtype, field, 0)
+}
+
+func (p *pkg) structFieldTypeD(rtype, field string, depth int) (string, bool) {
 	ts := p.types[rtype]
-	if ts == nil {
+	if ts == nil || depth > 3 {
 		return "", false
 	}
 	st, ok := ts.Type.(*ast.StructType)
@@ -65,14 +73,38 @@ func (p *pkg) structFieldType(rtype, field string) (string, bool) {
 			}
 		}
 	}
+	for _, f := range st.Fields.List { // embedded structs (BatchPPD{Batch}): their fields are promoted
+		if len(f.Names) == 0 {
+			if t, ok := p.structFieldTypeD(strings.TrimPrefix(p.src(f.Type), "*"), field, depth+1); ok {
+				return t, true
+			}
+		}
+	}
 	return "", false
+}
+
+// embedded lists the embedded struct types of rtype (depth first), rtype itself first
+func (p *pkg) embedded(rtype string, depth int) []string {
+	out := []string{rtype}
+	ts := p.types[rtype]
+	if ts == nil || depth > 3 {
+		return out
+	}
+	if st, ok := ts.Type.(*ast.StructType); ok {
+		for _, f := range st.Fields.List {
+			if len(f.Names) == 0 {
+				out = append(out, p.embedded(strings.TrimPrefix(p.src(f.Type), "*"), depth+1)...)
+			}
+		}
+	}
+	return out
 }
 
 func glName(key string) string { return "v_" + leanIdent(key) }
 
 // method lookup through the embedded helper structs (validator, converters)
 func (p *pkg) findMethod(rtype, name string) (string, *ast.FuncDecl) {
-	for _, t := range []string{rtype, "validator", "converters"} {
+	for _, t := range append(p.embedded(rtype, 0), "validator", "converters") {
 		if fd, ok := p.funcs[t+"."+name]; ok {
 			return t + "." + name, fd
 		}
@@ -84,10 +116,59 @@ func (c *glCtx) unknownE(n ast.Node) string {
 	return fmt.Sprintf("(.unknown %s)", leanStr(unrec("golite expr in %s: %s", c.rtype, c.p.src(n))))
 }
 
+// typeOf: the Go type of an expression, as far as struct fields, locals, method results and indexing go ("" = unknown)
+func (c *glCtx) typeOf(e ast.Expr) string {
+	switch e := e.(type) {
+	case *ast.ParenExpr:
+		return c.typeOf(e.X)
+	case *ast.Ident:
+		if e.Name == c.recv && c.recv != "" {
+			return "*" + c.rtype
+		}
+		return c.types[e.Name]
+	case *ast.SelectorExpr:
+		t := strings.TrimPrefix(c.typeOf(e.X), "*")
+		if t == "" {
+			return ""
+		}
+		ft, _ := c.p.structFieldType(t, e.Sel.Name)
+		return ft
+	case *ast.CallExpr:
+		if se, ok := e.Fun.(*ast.SelectorExpr); ok {
+			t := strings.TrimPrefix(c.typeOf(se.X), "*")
+			if t != "" {
+				if _, fd := c.p.findMethod(t, se.Sel.Name); fd != nil && fd.Type.Results != nil && len(fd.Type.Results.List) >= 1 {
+					return c.p.src(fd.Type.Results.List[0].Type)
+				}
+			}
+		}
+	case *ast.IndexExpr:
+		t := c.typeOf(e.X)
+		if strings.HasPrefix(t, "[]") {
+			return t[2:]
+		}
+	}
+	return ""
+}
+
+func (c *glCtx) isStructPtr(t string) bool {
+	t = strings.TrimPrefix(t, "*")
+	ts := c.p.types[t]
+	if ts == nil {
+		return false
+	}
+	_, ok := ts.Type.(*ast.StructType)
+	return ok
+}
+
 func (c *glCtx) isOptsExpr(e ast.Expr) (string, bool) {
 	switch e := e.(type) {
 	case *ast.SelectorExpr:
 		if id, ok := e.X.(*ast.Ident); ok && id.Name == c.recv && e.Sel.Name == "validateOpts" {
+			return "recv", true
+		}
+		// any record's own options: the model speaks about batches whose records all carry the same options
+		if e.Sel.Name == "validateOpts" && c.isStructPtr(c.typeOf(e.X)) {
 			return "recv", true
 		}
 	case *ast.Ident:
@@ -178,7 +259,7 @@ func (c *glCtx) call(name string, args []ast.Expr, at ast.Node) string {
 }
 
 // accessor: a method whose body is a single `return <expr>` (optionally preceded by nothing), no parameters
-func (c *glCtx) inlineAccessor(key string, fd *ast.FuncDecl) (string, bool) {
+func (c *glCtx) inlineAccessor(key string, fd *ast.FuncDecl, recvTerm string) (string, bool) {
 	if fd.Body == nil || len(fd.Body.List) != 1 || c.depth > 4 {
 		return "", false
 	}
@@ -189,13 +270,20 @@ func (c *glCtx) inlineAccessor(key string, fd *ast.FuncDecl) (string, bool) {
 	if !ok || len(rs.Results) != 1 {
 		return "", false
 	}
-	sub := &glCtx{p: c.p, recv: recvIdent(fd), rtype: strings.SplitN(key, ".", 2)[0], optsPar: map[string]bool{}, depth: c.depth + 1, used: c.used, q: c.q}
+	sub := &glCtx{p: c.p, recv: recvIdent(fd), rtype: strings.SplitN(key, ".", 2)[0], optsPar: map[string]bool{}, depth: c.depth + 1, used: c.used, q: c.q,
+		types: map[string]string{}, selfTerm: recvTerm}
 	defer func() { c.pre = append(c.pre, sub.pre...) }()
 	sub.tmp = c.tmp
 	if sub.rtype == "validator" || sub.rtype == "converters" {
 		sub.rtype = c.rtype
 	}
-	return sub.expr(rs.Results[0]), true
+	mark := len(unrecognised)
+	t := sub.expr(rs.Results[0])
+	if strings.Contains(t, ".unknown") {
+		unrecognised = unrecognised[:mark]
+		return "", false
+	}
+	return t, true
 }
 
 func (c *glCtx) expr(e ast.Expr) string {
@@ -263,7 +351,15 @@ func (c *glCtx) expr(e ast.Expr) string {
 	case *ast.SelectorExpr:
 		if id, ok := e.X.(*ast.Ident); ok && id.Name == c.recv {
 			if _, ok := c.p.structFieldType(c.rtype, e.Sel.Name); ok {
+				if c.selfTerm != "" {
+					return fmt.Sprintf("(.sel %s %s)", c.selfTerm, leanStr(e.Sel.Name))
+				}
 				return fmt.Sprintf("(.fld %s)", leanStr(e.Sel.Name))
+			}
+		}
+		if xt := strings.TrimPrefix(c.typeOf(e.X), "*"); xt != "" && c.isStructPtr(xt) {
+			if _, ok := c.p.structFieldType(xt, e.Sel.Name); ok {
+				return fmt.Sprintf("(.sel %s %s)", c.expr(e.X), leanStr(e.Sel.Name))
 			}
 		}
 	case *ast.CallExpr:
@@ -296,22 +392,14 @@ func (c *glCtx) expr(e ast.Expr) string {
 			}
 			return c.call(f.Name, e.Args, e)
 		case *ast.SelectorExpr:
+			if t, ok := c.methodCall(e, f); ok {
+				return t
+			}
 			if id, ok := f.X.(*ast.Ident); ok {
 				if id.Name == c.recv {
-					key, fd := c.p.findMethod(c.rtype, f.Sel.Name)
-					if fd != nil && len(e.Args) == 0 {
-						if t, ok := c.inlineAccessor(key, fd); ok {
-							return t
-						}
-					}
-					if key != "" {
-						if t, ok := c.helperCall(key, e.Args); ok {
-							return t
-						}
-					}
 					return c.call(f.Sel.Name, e.Args, e)
 				}
-				if id.Obj == nil { // package-qualified: strconv.Atoi, utf8.RuneCountInString, strings.X
+				if id.Obj == nil && c.types[id.Name] == "" { // package-qualified: strconv.Atoi, utf8.RuneCountInString, strings.X
 					return c.call(id.Name+"."+f.Sel.Name, e.Args, e)
 				}
 			}
@@ -348,9 +436,114 @@ func (c *glCtx) expr(e ast.Expr) string {
 				}
 			}
 		}
+		if strings.HasPrefix(c.typeOf(e.X), "[]") {
+			return fmt.Sprintf("(.idx %s %s)", c.expr(e.X), c.expr(e.Index))
+		}
 		return fmt.Sprintf("(.call2 \"index\" %s %s)", c.expr(e.X), c.expr(e.Index))
 	}
 	return c.unknownE(e)
+}
+
+// recvTermOf: the Lean term of the object a method is called on ("" = the current receiver itself)
+func (c *glCtx) recvTermOf(x ast.Expr) string {
+	if id, ok := x.(*ast.Ident); ok && id.Name == c.recv && c.recv != "" {
+		return c.selfTerm
+	}
+	return c.expr(x)
+}
+
+func paramNames(fd *ast.FuncDecl) []string {
+	var ps []string
+	if fd.Type.Params != nil {
+		for _, f := range fd.Type.Params.List {
+			for _, n := range f.Names {
+				ps = append(ps, n.Name)
+			}
+		}
+	}
+	return ps
+}
+
+// methodCall translates X.m(args) for X of a known struct type: batch.Error(tag, ...) -> a tagged error; accessors
+// (single `return expr`) are inlined; helper methods of the embedded validator / converters go the helper way;
+// any other method whose body translates is hoisted as a call statement in front of the current statement.
+func (c *glCtx) methodCall(e *ast.CallExpr, f *ast.SelectorExpr) (string, bool) {
+	xt := strings.TrimPrefix(c.typeOf(f.X), "*")
+	if xt == "" || !c.isStructPtr(xt) {
+		return "", false
+	}
+	key, fd := c.p.findMethod(xt, f.Sel.Name)
+	if fd == nil {
+		return "", false
+	}
+	declT := strings.SplitN(key, ".", 2)[0]
+	if f.Sel.Name == "Error" && len(e.Args) >= 1 {
+		if s, ok := c.p.evalStr(e.Args[0]); ok {
+			return fmt.Sprintf("(.mkErr %s)", leanStr(s)), true
+		}
+	}
+	if declT == "validator" || declT == "converters" {
+		if len(e.Args) == 0 {
+			if t, ok := c.inlineAccessor(key, fd, c.recvTermOf(f.X)); ok {
+				return t, true
+			}
+		}
+		if t, ok := c.helperCall(key, e.Args); ok {
+			return t, true
+		}
+		return c.call(f.Sel.Name, e.Args, e), true
+	}
+	rt := c.recvTermOf(f.X)
+	if len(e.Args) == 0 {
+		if t, ok := c.inlineAccessor(key, fd, rt); ok {
+			return t, true
+		}
+	}
+	if t, ok := c.hoistMethod(key, fd, rt, e.Args); ok {
+		return t, true
+	}
+	return "", false
+}
+
+// hoistMethod: `.sub` / `.subOn` call of a translated method in front of the current statement
+func (c *glCtx) hoistMethod(key string, fd *ast.FuncDecl, recvTerm string, args []ast.Expr) (string, bool) {
+	if fd.Body == nil || fd.Type.Results == nil || c.tmp == nil || c.q.busy[key] {
+		return "", false
+	}
+	nres := 0
+	for _, r := range fd.Type.Results.List {
+		if len(r.Names) == 0 {
+			nres++
+		} else {
+			nres += len(r.Names)
+		}
+	}
+	if nres < 1 || nres > 2 {
+		return "", false
+	}
+	params := paramNames(fd)
+	if len(params) != len(args) {
+		return "", false
+	}
+	mark := len(unrecognised)
+	c.q.translate(c.p, key)
+	if strings.Contains(c.q.done[key], ".unknown") {
+		unrecognised = unrecognised[:mark]
+		c.q.drop(key)
+		return "", false
+	}
+	var as []string
+	for _, a := range args {
+		as = append(as, c.expr(a))
+	}
+	*c.tmp++
+	tmp := fmt.Sprintf("_t%d", *c.tmp)
+	if recvTerm == "" {
+		c.pre = append(c.pre, fmt.Sprintf("(.sub %s %s [%s] %s)", leanStr(tmp), leanStrList(params), strings.Join(as, ", "), glName(key)))
+	} else {
+		c.pre = append(c.pre, fmt.Sprintf("(.subOn %s %s %s [%s] %s)", leanStr(tmp), recvTerm, leanStrList(params), strings.Join(as, ", "), glName(key)))
+	}
+	return fmt.Sprintf("(.var %s)", leanStr(tmp)), true
 }
 
 func (c *glCtx) unknownS(n ast.Node) string {
@@ -388,42 +581,77 @@ func isErrNeNil(e ast.Expr) (string, bool) {
 	return id.Name, true
 }
 
-// validatorProgram: the callee is a parameterless receiver method returning error that we translate as a program
-func (c *glCtx) validatorProgram(call *ast.CallExpr) (string, bool) {
+// checkCall: `X.m(args)` with m a method (of the receiver or of another record) returning only an error whose body
+// translates: returns the Lean statement `.check` / `.checkOn` for `if err := X.m(args); err != nil { return ... }`
+func (c *glCtx) checkCall(call *ast.CallExpr, tag string) (string, bool) {
 	se, ok := call.Fun.(*ast.SelectorExpr)
-	if !ok || len(call.Args) != 0 {
+	if !ok {
 		return "", false
 	}
-	id, ok := se.X.(*ast.Ident)
-	if !ok || id.Name != c.recv {
+	xt := strings.TrimPrefix(c.typeOf(se.X), "*")
+	if xt == "" || !c.isStructPtr(xt) {
 		return "", false
 	}
-	fd, ok := c.p.funcs[c.rtype+"."+se.Sel.Name]
-	if !ok || fd.Type.Results == nil || len(fd.Type.Results.List) != 1 || c.p.src(fd.Type.Results.List[0].Type) != "error" {
+	key, fd := c.p.findMethod(xt, se.Sel.Name)
+	if fd == nil || fd.Body == nil || fd.Type.Results == nil || len(fd.Type.Results.List) != 1 || c.p.src(fd.Type.Results.List[0].Type) != "error" {
 		return "", false
 	}
-	if fd.Type.Params != nil && len(fd.Type.Params.List) > 0 {
+	declT := strings.SplitN(key, ".", 2)[0]
+	if declT == "validator" || declT == "converters" || c.q.busy[key] {
 		return "", false
 	}
-	key := c.rtype + "." + se.Sel.Name
+	params := paramNames(fd)
+	if len(params) != len(call.Args) {
+		return "", false
+	}
+	mark := len(unrecognised)
 	c.q.translate(c.p, key)
-	return glName(key), true
+	if strings.Contains(c.q.done[key], ".unknown") && len(params) > 0 {
+		// keep unknowns visible for parameterless validators (the obligation reports them); with parameters fall back
+		unrecognised = unrecognised[:mark]
+		c.q.drop(key)
+		return "", false
+	}
+	rt := c.recvTermOf(se.X)
+	if rt == "" && len(params) == 0 {
+		return fmt.Sprintf("(.check %s %s)", tag, glName(key)), true
+	}
+	if rt == "" {
+		rt = ".self"
+	}
+	var as []string
+	for _, a := range call.Args {
+		as = append(as, c.expr(a))
+	}
+	return fmt.Sprintf("(.checkOn %s %s %s [%s] %s)", tag, rt, leanStrList(params), strings.Join(as, ", "), glName(key)), true
 }
 
 func (c *glCtx) ifStmt(s *ast.IfStmt) string {
-	// pattern: if err := recv.m(); err != nil { return err | return fieldError("T", err, ...) }
+	// pattern: if err := X.m(args); err != nil { return err | return fieldError("T", err, ...) | return recv.Error("T", err, ...) }
 	if as, ok := s.Init.(*ast.AssignStmt); ok && as.Tok == token.DEFINE && len(as.Lhs) == 1 && len(as.Rhs) == 1 && s.Else == nil {
 		if ev, ok := isErrNeNil(s.Cond); ok && c.p.src(as.Lhs[0]) == ev && len(s.Body.List) == 1 {
 			if rs, ok := s.Body.List[0].(*ast.ReturnStmt); ok && len(rs.Results) == 1 {
 				if ce, ok := as.Rhs[0].(*ast.CallExpr); ok {
-					if prog, ok := c.validatorProgram(ce); ok {
-						if id, ok := rs.Results[0].(*ast.Ident); ok && id.Name == ev {
-							return fmt.Sprintf("(.check none %s)", prog)
-						}
-						if fe, ok := rs.Results[0].(*ast.CallExpr); ok && c.p.src(fe.Fun) == "fieldError" && len(fe.Args) >= 2 {
-							if tag, ok := c.p.evalStr(fe.Args[0]); ok && c.p.src(fe.Args[1]) == ev {
-								return fmt.Sprintf("(.check (some %s) %s)", leanStr(tag), prog)
+					tag := ""
+					if id, ok := rs.Results[0].(*ast.Ident); ok && id.Name == ev {
+						tag = "none"
+					} else if fe, ok := rs.Results[0].(*ast.CallExpr); ok && len(fe.Args) >= 2 && c.p.src(fe.Args[1]) == ev {
+						if t, ok := c.p.evalStr(fe.Args[0]); ok {
+							if c.p.src(fe.Fun) == "fieldError" {
+								tag = "(some " + leanStr(t) + ")"
+							} else if fs, ok := fe.Fun.(*ast.SelectorExpr); ok && fs.Sel.Name == "Error" && c.isStructPtr(c.typeOf(fs.X)) {
+								tag = "(some " + leanStr("!"+t) + ")" // batch.Error(tag, err): the tag always wins
 							}
+						}
+					}
+					if tag != "" {
+						savedPre := c.pre
+						c.pre = nil
+						t, ok := c.checkCall(ce, tag)
+						pre := c.pre
+						c.pre = savedPre
+						if ok {
+							return seqs(append(pre, t))
 						}
 					}
 				}
@@ -485,14 +713,23 @@ func (c *glCtx) stmt0(s ast.Stmt) string {
 	case *ast.BlockStmt:
 		return "(.block " + c.block(s.List) + ")"
 	case *ast.ReturnStmt:
+		if len(s.Results) == 2 {
+			return fmt.Sprintf("(.ret (.pair %s %s))", c.expr(s.Results[0]), c.expr(s.Results[1]))
+		}
+		if len(s.Results) == 0 && len(c.named) == 1 {
+			return fmt.Sprintf("(.ret (.var %s))", leanStr(c.named[0]))
+		}
+		if len(s.Results) == 0 && len(c.named) == 2 {
+			return fmt.Sprintf("(.ret (.pair (.var %s) (.var %s)))", leanStr(c.named[0]), leanStr(c.named[1]))
+		}
 		if len(s.Results) == 1 {
 			if id, ok := s.Results[0].(*ast.Ident); ok && id.Name == c.errGuard && c.errGuard != "" {
 				return fmt.Sprintf("(.ret (.nonNil (.var %s)))", leanStr(id.Name))
 			}
 			// return recv.m() with m a validator program: tail call
 			if ce, ok := s.Results[0].(*ast.CallExpr); ok {
-				if prog, ok := c.validatorProgram(ce); ok {
-					return fmt.Sprintf("(seqs [(.check none %s), (.ret .nil)])", prog)
+				if t, ok := c.checkCall(ce, "none"); ok {
+					return fmt.Sprintf("(seqs [%s, (.ret .nil)])", t)
 				}
 			}
 			return "(.ret " + c.expr(s.Results[0]) + ")"
@@ -511,6 +748,9 @@ func (c *glCtx) stmt0(s ast.Stmt) string {
 			}
 			if len(s.Lhs) == 1 {
 				if id, ok := s.Lhs[0].(*ast.Ident); ok {
+					if s.Tok == token.DEFINE {
+						c.types[id.Name] = c.typeOf(s.Rhs[0])
+					}
 					return fmt.Sprintf("(.%s %s %s)", ctor, leanStr(id.Name), c.expr(s.Rhs[0]))
 				}
 			}
@@ -532,6 +772,36 @@ func (c *glCtx) stmt0(s ast.Stmt) string {
 			}
 		}
 	case *ast.SwitchStmt:
+		c.inSwitch++
+		defer func() { c.inSwitch-- }()
+		if s.Init == nil && s.Tag == nil {
+			res := ".skip"
+			var clauses []*ast.CaseClause
+			for _, cl := range s.Body.List {
+				clauses = append(clauses, cl.(*ast.CaseClause))
+			}
+			for _, cl := range clauses {
+				if cl.List == nil {
+					res = "(.block " + c.block(cl.Body) + ")"
+				}
+			}
+			for i := len(clauses) - 1; i >= 0; i-- {
+				cl := clauses[i]
+				if cl.List == nil {
+					continue
+				}
+				var conds []string
+				for _, v := range cl.List {
+					conds = append(conds, c.expr(v))
+				}
+				cond := conds[len(conds)-1]
+				for j := len(conds) - 2; j >= 0; j-- {
+					cond = fmt.Sprintf("(.or %s %s)", conds[j], cond)
+				}
+				res = fmt.Sprintf("(.ite %s\n    (.block %s)\n    %s)", cond, c.block(cl.Body), res)
+			}
+			return res
+		}
 		if s.Init == nil && s.Tag != nil {
 			tag := c.expr(s.Tag)
 			bindTag := ""
@@ -575,9 +845,93 @@ func (c *glCtx) stmt0(s ast.Stmt) string {
 			}
 			return res
 		}
+	case *ast.RangeStmt:
+		if s.Tok == token.DEFINE || (s.Key == nil && s.Value == nil) {
+			coll := c.expr(s.X)
+			et := strings.TrimPrefix(c.typeOf(s.X), "[]")
+			key, val := "", ""
+			if id, ok := s.Key.(*ast.Ident); ok && id.Name != "_" {
+				key = id.Name
+			}
+			if id, ok := s.Value.(*ast.Ident); ok && id.Name != "_" {
+				val = id.Name
+			}
+			if strings.HasPrefix(c.typeOf(s.X), "[]") && c.isStructPtr(et) {
+				savedSw := c.inSwitch
+				c.inSwitch = 0
+				defer func() { c.inSwitch = savedSw }()
+				if val != "" {
+					c.types[val] = et
+				}
+				if key != "" {
+					c.types[key] = "int"
+				}
+				switch {
+				case key == "" && val != "":
+					return fmt.Sprintf("(.forEach %s %s\n    %s)", leanStr(val), coll, c.block(s.Body.List))
+				case key != "" && val == "":
+					return fmt.Sprintf("(.forIdx %s %s\n    %s)", leanStr(key), coll, c.block(s.Body.List))
+				case key != "" && val != "":
+					body := seqs([]string{fmt.Sprintf("(.bind %s (.idx %s (.var %s)))", leanStr(val), coll, leanStr(key)), c.block(s.Body.List)})
+					return fmt.Sprintf("(.forIdx %s %s\n    %s)", leanStr(key), coll, body)
+				default:
+					return fmt.Sprintf("(.forIdx \"_i\" %s\n    %s)", coll, c.block(s.Body.List))
+				}
+			}
+		}
+	case *ast.ForStmt:
+		// for i := 0; i < len(X); i++ { ... }
+		if as, ok := s.Init.(*ast.AssignStmt); ok && as.Tok == token.DEFINE && len(as.Lhs) == 1 && len(as.Rhs) == 1 && c.p.src(as.Rhs[0]) == "0" {
+			if iv, ok := as.Lhs[0].(*ast.Ident); ok {
+				if be, ok := s.Cond.(*ast.BinaryExpr); ok && be.Op == token.LSS && c.p.src(be.X) == iv.Name {
+					if ce, ok := be.Y.(*ast.CallExpr); ok && c.p.src(ce.Fun) == "len" && len(ce.Args) == 1 {
+						if inc, ok := s.Post.(*ast.IncDecStmt); ok && inc.Tok == token.INC && c.p.src(inc.X) == iv.Name {
+							if strings.HasPrefix(c.typeOf(ce.Args[0]), "[]") && !assignsTo(s.Body, iv.Name) {
+								savedSw := c.inSwitch
+								c.inSwitch = 0
+								defer func() { c.inSwitch = savedSw }()
+								c.types[iv.Name] = "int"
+								return fmt.Sprintf("(.forIdx %s %s\n    %s)", leanStr(iv.Name), c.expr(ce.Args[0]), c.block(s.Body.List))
+							}
+						}
+					}
+				}
+			}
+		}
+	case *ast.BranchStmt:
+		if s.Label == nil {
+			switch s.Tok {
+			case token.CONTINUE:
+				return ".cont"
+			case token.BREAK:
+				if c.inSwitch == 0 {
+					return ".brk"
+				}
+			}
+		}
+	case *ast.IncDecStmt:
+		if id, ok := s.X.(*ast.Ident); ok {
+			op := "add"
+			if s.Tok == token.DEC {
+				op = "sub"
+			}
+			return fmt.Sprintf("(.assign %s (.%s (.var %s) (.int 1)))", leanStr(id.Name), op, leanStr(id.Name))
+		}
 	case *ast.DeclStmt:
 		if gd, ok := s.Decl.(*ast.GenDecl); ok && gd.Tok == token.VAR && len(gd.Specs) == 1 {
 			vs := gd.Specs[0].(*ast.ValueSpec)
+			if len(vs.Names) > 1 && len(vs.Values) == 0 {
+				var parts []string
+				for _, n := range vs.Names {
+					z, ok := zeroOf(c.p.src(vs.Type))
+					if !ok {
+						return c.unknownS(s)
+					}
+					c.types[n.Name] = c.p.src(vs.Type)
+					parts = append(parts, fmt.Sprintf("(.bind %s %s)", leanStr(n.Name), z))
+				}
+				return seqs(parts)
+			}
 			if len(vs.Names) == 1 {
 				if len(vs.Values) == 1 {
 					return fmt.Sprintf("(.bind %s %s)", leanStr(vs.Names[0].Name), c.expr(vs.Values[0]))
@@ -587,6 +941,8 @@ func (c *glCtx) stmt0(s ast.Stmt) string {
 					return fmt.Sprintf("(.bind %s (.int 0))", leanStr(vs.Names[0].Name))
 				case "string":
 					return fmt.Sprintf("(.bind %s (.str \"\"))", leanStr(vs.Names[0].Name))
+				case "bool":
+					return fmt.Sprintf("(.bind %s (.bool false))", leanStr(vs.Names[0].Name))
 				}
 			}
 		}
@@ -680,6 +1036,36 @@ func (p *pkg) dictKeys(name string) ([]string, bool) {
 	return keys, len(keys) > 0
 }
 
+// usabbrevKeys: the keys of the map literal in internal/usabbrev/usabbrev.go
+func usabbrevKeys(p *pkg) []string {
+	up := loadPkg(p.dir + "/internal/usabbrev")
+	var keys []string
+	for _, af := range up.files {
+		ast.Inspect(af, func(n ast.Node) bool {
+			cl, ok := n.(*ast.CompositeLit)
+			if !ok {
+				return true
+			}
+			if _, isMap := cl.Type.(*ast.MapType); !isMap {
+				return true
+			}
+			for _, el := range cl.Elts {
+				if kv, ok := el.(*ast.KeyValueExpr); ok {
+					if k, ok := up.evalStr(kv.Key); ok && up.src(kv.Value) == "true" {
+						keys = append(keys, k)
+					}
+				}
+			}
+			return false
+		})
+	}
+	sort.Strings(keys)
+	if len(keys) == 0 {
+		keys = []string{unrec("usabbrev table not found")}
+	}
+	return keys
+}
+
 var errVarCache map[*pkg]map[string]bool
 
 // errVars: package-level variables initialised with errors.New / fmt.Errorf (always non-nil errors)
@@ -716,6 +1102,40 @@ func (p *pkg) errVars() map[string]bool {
 	return m
 }
 
+func zeroOf(t string) (string, bool) {
+	switch t {
+	case "int", "int32", "int64", "uint":
+		return "(.int 0)", true
+	case "string":
+		return "(.str \"\")", true
+	case "bool":
+		return "(.bool false)", true
+	case "error":
+		return ".nil", true
+	}
+	return "", false
+}
+
+func assignsTo(body ast.Node, name string) bool {
+	found := false
+	ast.Inspect(body, func(n ast.Node) bool {
+		switch n := n.(type) {
+		case *ast.AssignStmt:
+			for _, l := range n.Lhs {
+				if id, ok := l.(*ast.Ident); ok && id.Name == name {
+					found = true
+				}
+			}
+		case *ast.IncDecStmt:
+			if id, ok := n.X.(*ast.Ident); ok && id.Name == name {
+				found = true
+			}
+		}
+		return true
+	})
+	return found
+}
+
 // translate one function (key "Type.Method") into a named Lean Prog definition
 func (q *glQueue) translate(p *pkg, key string) {
 	if _, ok := q.done[key]; ok || q.busy[key] {
@@ -728,16 +1148,33 @@ func (q *glQueue) translate(p *pkg, key string) {
 		return
 	}
 	q.busy[key] = true
-	c := &glCtx{p: p, recv: recvIdent(fd), rtype: strings.SplitN(key, ".", 2)[0], optsPar: map[string]bool{}, q: q, tmp: new(int)}
+	c := &glCtx{p: p, recv: recvIdent(fd), rtype: strings.SplitN(key, ".", 2)[0], optsPar: map[string]bool{}, q: q, tmp: new(int), types: map[string]string{}}
 	if !strings.Contains(key, ".") {
 		c.recv, c.rtype = "", ""
 	}
 	if fd.Type.Params != nil {
 		for _, f := range fd.Type.Params.List {
+			for _, n := range f.Names {
+				c.types[n.Name] = p.src(f.Type)
+			}
 			if p.src(f.Type) == "*ValidateOpts" {
 				for _, n := range f.Names {
 					c.optsPar[n.Name] = true
 				}
+			}
+		}
+	}
+	var namedInit []string
+	if fd.Type.Results != nil {
+		for _, f := range fd.Type.Results.List {
+			for _, n := range f.Names {
+				c.named = append(c.named, n.Name)
+				c.types[n.Name] = p.src(f.Type)
+				z, ok := zeroOf(p.src(f.Type))
+				if !ok {
+					z = fmt.Sprintf("(.unknown %s)", leanStr(unrec("golite: named result %s of %s", n.Name, key)))
+				}
+				namedInit = append(namedInit, fmt.Sprintf("(.bind %s %s)", leanStr(n.Name), z))
 			}
 		}
 	}
@@ -755,6 +1192,9 @@ func (q *glQueue) translate(p *pkg, key string) {
 		kept = append(kept, s)
 	}
 	term := c.block(kept)
+	if len(namedInit) > 0 {
+		term = seqs(append(namedInit, term))
+	}
 	delete(q.busy, key)
 	q.done[key] = term
 	q.order = append(q.order, key)
@@ -786,13 +1226,25 @@ func emitValidators(p *pkg, out string) {
 		}
 		df.pf("  (%s, %s)%s\n", leanStr(d), leanStrList(ks), sep)
 	}
-	df.pf("]\n")
+	df.pf("]\n\n/-- keys of internal/usabbrev's table (`usabbrev.Valid(s)` = strings.ToUpper(s) is a key) -/\ndef usabbrevKeys : List String := %s\n", leanStrList(usabbrevKeys(p)))
 	df.write(out)
 	lf := newLean("Validators", "Ach.Model.GoLite")
 	lf.pf("open Ach.GoLite\n\n")
 	q := &glQueue{done: map[string]string{}, busy: map[string]bool{}}
 	entries := p.recordValidators()
 	for _, k := range entries {
+		q.translate(p, k)
+	}
+	// the SEC-specific batch validators (BatchPPD.Validate, ...: Batch.verify and everything it calls, then the per-entry rules)
+	var batchEntries []string
+	for _, t := range sortedKeys(p.types) {
+		if strings.HasPrefix(t, "Batch") && t != "Batch" && len(p.embedded(t, 0)) > 1 && p.embedded(t, 0)[1] == "Batch" {
+			if _, ok := p.funcs[t+".Validate"]; ok {
+				batchEntries = append(batchEntries, t+".Validate")
+			}
+		}
+	}
+	for _, k := range batchEntries {
 		q.translate(p, k)
 	}
 	for _, k := range q.order {
@@ -807,6 +1259,7 @@ func emitValidators(p *pkg, out string) {
 		lf.pf("  (%s, %s)%s\n", leanStr(k), glName(k), sep)
 	}
 	lf.pf("]\n\n/-- the record-level entry points -/\ndef validatorEntries : List String := %s\n\n", leanStrList(entries))
+	lf.pf("/-- the batch-level entry points (one per SEC code) -/\ndef batchValidatorEntries : List String := %s\n\n", leanStrList(batchEntries))
 	// field types of the receiver structs (string / int / bool / other)
 	lf.pf("def validatorFieldTypes : List (String × List (String × String)) := [\n")
 	seen := map[string]bool{}
